@@ -50,6 +50,9 @@ def _join_fields(fn):
     return out
 
 
+#: locals of recreate_search_from_recipe by what they hold
+RECIPE_ROLES = {"start_keys": ("assign", "set(lines[0].split(b' '))"), "exclude_keys": ("assign", "set(lines[1].split(b' '))"), "revision_count": ("assign", "int(lines[2].decode('ascii'))"), "search": ("assign", "~repository\\.get_graph\\(\\)\\._make_breadth_first_searcher\\(.*\\)"), "started_keys": ("assign", "{search}.get_state()", 0), "excludes": ("assign", "{search}.get_state()", 1), "included_keys": ("assign", "{search}.get_state()", 2), "search_result": ("assign", "~vf_search\\.SearchResult\\(.*\\)")}
+
 def run(ctx):
     repo = ctx.repo
     # ---- tags ----------------------------------------------------------------
@@ -78,8 +81,15 @@ def run(ctx):
         f = repo.func(rel, q)
         got = _join_fields(f)
         ctx.check("writer-fields", f"{rel}:{q}", got == want, "serialised as start keys | stop keys | count, separated by newline, keys by space", construct=str(got), message=f"{q} serialises {got}, the server expects {want}")
+    from ..astutil import bind_roles, canonicalise
+
     fr = repo.func(SR, "SmartServerRepositoryRequest.recreate_search_from_recipe")
     where = f"{SR}:SmartServerRepositoryRequest.recreate_search_from_recipe"
+    # the three header fields are bound by how they are read; a field read differently fails to bind and is reported
+    try:
+        fr = canonicalise(fr, bind_roles(fr, RECIPE_ROLES, where))
+    except Exception as e_:  # noqa: BLE001 - reported as the violation it is
+        ctx.check("reader-fields", where, False, "the recipe is read as line 0 = start keys, line 1 = stop keys (space separated), line 2 = ascii count", construct=str(e_)[:200], message=f"the server no longer reads the recipe as start keys / stop keys / ascii count: {str(e_)[:200]}")
     defs = {norm(s.targets[0]): norm(s.value) for s in walk_own(fr) if isinstance(s, ast.Assign) and len(s.targets) == 1}
     ctx.check("reader-fields", where, defs.get("start_keys") == "set(lines[0].split(b' '))", "line 0 = start keys, split on space", construct=defs.get("start_keys", ""))
     ctx.check("reader-fields", where, defs.get("exclude_keys") == "set(lines[1].split(b' '))", "line 1 = stop keys, split on space", construct=defs.get("exclude_keys", ""))
@@ -88,9 +98,12 @@ def run(ctx):
     ctx.check("reader-use", where, any(call_attr(c) == "_make_breadth_first_searcher" and [norm(a) for a in c.args] == ["start_keys"] for c in cs), "the walk starts from the start keys")
     ctx.check("reader-use", where, any(call_attr(c) == "stop_searching_any" and "exclude_keys" in norm(c.args[0]) for c in cs), "the walk stops at the stop keys")
     disp = [c for c in calls_in(rs) if call_attr(c) == "recreate_search_from_recipe"]
-    ctx.check("reader-use", f"{SR}:SmartServerRepositoryRequest.recreate_search", len(disp) == 1 and norm(disp[0].args[1]) == "lines[1:]", "the recipe body is everything after the tag line")
+    from ..astutil import bound_names
+
+    _ln = bound_names(rs, lambda t, n: t == "search_bytes.split(b'\\n')")
+    ctx.check("reader-use", f"{SR}:SmartServerRepositoryRequest.recreate_search", len(disp) == 1 and norm(disp[0].args[1]) == f"{_ln[0]}[1:]" if len(_ln) == 1 else False, "the recipe body is everything after the tag line")
     # ---- count check --------------------------------------------------------------
-    fn, g, where = fn_cfg(ctx, SR, "SmartServerRepositoryRequest.recreate_search_from_recipe")
+    fn, g, where = fn_cfg(ctx, SR, "SmartServerRepositoryRequest.recreate_search_from_recipe", roles=RECIPE_ROLES)
     oks = [n.id for n in g.nodes if n.kind == "stmt" and isinstance(n.ast, ast.Return) and "search_result" in norm(n.ast.value)]
     need(where, oks, "return (search_result, None)")
     k2_unreachable(ctx, "count-check", where, g, {"discard_excess": False, "not discard_excess": True, "len(included_keys) != revision_count": True}, oks, "a count mismatch is answered with NoSuchRevision unless discard_excess")
